@@ -1,6 +1,7 @@
 import GoatSpec.Properties.C09
 import GoatSpec.Proofs.Splice
 import GoatSpec.Proofs.Legal
+import GoatSpec.Proofs.ScopeBlks
 import GoatSpec.Properties.C03
 /-! # C01 — goat track succeeds and the instrumented project still builds.
 
@@ -220,6 +221,17 @@ theorem marks_legal_func (f : File) (hwf : wfFileFunc f = true)
           rw [← hbl'] at hskip
           exact force_target_legal env f hcm b hb hbok.1 hlt _ r hskip
 
+/-- **marks_legal_func, with the scope hypothesis discharged**: that every function scope is the
+    brace pair of a block is not an assumption about the input but a consequence of "the file
+    scope sorts first" (`headIsFile`: the package clause precedes every function) —
+    `Proofs/ScopeBlks.scopesOK_of_headIsFile`: `BlockScopes.Sort` is a permutation, and every
+    function node `FunctionScopesOfAST` collects has its body among the blocks of the file
+    (mutual structural induction, `litsS` against `blksS`). -/
+theorem marks_legal_func' (f : File) (hwf : wfFile f = true) (hh : headIsFile f = true)
+    (ranges : List (Nat × Nat)) (m : Marks) (h : marks f .func ranges = .ok m) :
+    ∀ r ∈ m.multi, legalLine f r = true :=
+  marks_legal_func f (by simp [wfFileFunc, hwf, scopesOK_of_headIsFile f hh]) ranges m h
+
 /-- non-vacuity of `marks_legal`: a well-formed file with an `if` whose header is changed (a
     forced insert that skips a comment line) and a changed statement -/
 def legalExample : File :=
@@ -229,6 +241,7 @@ def legalExample : File :=
        .simple .mark 8 8 [] [] [], .simple .mark 9 9 [] [] []]))]⟩
 
 example : wfFileFunc legalExample = true := by decide
+example : headIsFile legalExample = true := by decide
 example : linesInFuncOK legalExample = true := by decide
 /-- the hypotheses of `C03.line_guard` are met by the statement on line 6 (inside the `if` body)
     and the one on line 9 of the example -/
